@@ -146,6 +146,43 @@ def _item(d):
             t["rule_conditions"] = [{"type": "processing_state", "key": c[1], "val": c[2]}]
     return t
 
+def _post(d):
+    """query postprocessing item of a pipeline definition -> YAML form (readers-check items come in YAML form already)"""
+    if "template" in d and d["type"] != "nest" and "key" not in d:
+        return dict(d)
+    t = {"type": d["type"], "id": d["id"]}
+    if d["type"] == "embed":
+        t["prefix"] = d["prefix"]
+    elif d["type"] == "template":
+        t["template"] = "ix=[{{ pipeline.state." + d["key"] + " }}] {{ query }}"
+    elif d["type"] == "nest":
+        t["items"] = [_post(x) for x in d["items"]]
+    c = d.get("cond")
+    if c is not None:
+        if c[0] == "product":
+            t["rule_conditions"] = [{"type": "logsource", "product": PRODUCT[c[1]]}]
+        elif c[0] == "state":
+            t["rule_conditions"] = [{"type": "processing_state", "key": c[1], "val": c[2]}]
+    return t
+
+def _has_nest(pd):
+    return isinstance(pd, dict) and any(x.get("type") == "nest" for x in pd.get("post", []))
+
+def _post_obj(d):
+    """postprocessing item object through the Python API (the `nest` type cannot be loaded from a dict: its constructor
+    gets the nested items as dicts)"""
+    from sigma.processing.pipeline import QueryPostprocessingItem
+    from sigma.processing.postprocessing import NestedQueryPostprocessingTransformation
+    from sigma.processing.conditions import LogsourceCondition, RuleProcessingStateCondition
+    if d["type"] != "nest":
+        return QueryPostprocessingItem.from_dict(_post(d))
+    conds = []
+    c = d.get("cond")
+    if c is not None:
+        conds = [LogsourceCondition(product=PRODUCT[c[1]])] if c[0] == "product" else [RuleProcessingStateCondition(c[1], c[2])]
+    return QueryPostprocessingItem(identifier=d["id"], rule_conditions=conds,
+                                   transformation=NestedQueryPostprocessingTransformation(items=[_post_obj(x) for x in d["items"]]))
+
 def pd_items(pd):
     """a pipeline definition is a list of items, or {"items": [...], "vars": {...}}"""
     return pd["items"] if isinstance(pd, dict) else pd
@@ -157,8 +194,8 @@ def pipeline_yaml(pd):
     d = {"name": "p", "priority": 10, "transformations": [_item(d) for d in pd_items(pd)]}
     if pd_vars(pd):
         d["vars"] = {k: (list(v) if isinstance(v, list) else v) for k, v in pd_vars(pd).items()}
-    if isinstance(pd, dict) and pd.get("post"):     # query postprocessing items (readers check only)
-        d["postprocessing"] = [dict(x) for x in pd["post"]]
+    if isinstance(pd, dict) and pd.get("post") and not _has_nest(pd):
+        d["postprocessing"] = [_post(x) for x in pd["post"]]
     if isinstance(pd, dict) and pd.get("fin"):
         d["finalizers"] = [dict(x) for x in pd["fin"]]
     return yaml.safe_dump(d)
@@ -180,7 +217,12 @@ def make_pipeline(pd):
     key = json.dumps(pd, sort_keys=True)
     if key not in _PIPE_YAML:
         _PIPE_YAML[key] = pipeline_yaml(pd)
-    return ProcessingPipeline.from_dict(_parsed(_PIPE_YAML[key]), allow_external_sources=allowed(pd_items(pd)))
+    p = ProcessingPipeline.from_dict(_parsed(_PIPE_YAML[key]), allow_external_sources=allowed(pd_items(pd)))
+    if _has_nest(pd):
+        p._clear_pipeline()
+        p = ProcessingPipeline(items=p.items, postprocessing_items=[_post_obj(x) for x in pd["post"]], finalizers=p.finalizers,
+                               vars=p.vars, priority=p.priority, name=p.name)
+    return p
 
 TEMPLATE_ATTRS = ["eq_expression", "re_expression", "cidr_expression", "startswith_expression",
                   "case_sensitive_startswith_expression", "endswith_expression",
